@@ -1,4 +1,4 @@
-(* Model of func_adl/ast/ast_hash.py : calc_ast_hash  =  md5(bytearray(map(ord, ast.dump(a)))).hexdigest()
+(* Model of func_adl/ast/ast_hash.py : calc_ast_hash  =  md5(ast.dump(a).encode("utf-8")).hexdigest()
 
    [dump_raw] transcribes CPython 3.12 [ast.dump(node)] with its default arguments
    (annotate_fields=True, include_attributes=False, indent=None):
@@ -16,8 +16,9 @@
    [printable] is Py_UNICODE_ISPRINTABLE on code points >= 128 (a parameter: the Unicode database is
    not modelled; the correspondence run instantiates it with CPython's str.isprintable).
 
-   [hash] returns [None] where the Python raises ValueError ("byte must be in range(0, 256)": the
-   dump contains a code point above 255 and bytearray.extend(map(ord, ...)) rejects it). *)
+   [hash] returns [None] where the Python raises UnicodeEncodeError (a lone surrogate in the dump text - which
+   CPython's repr never leaves unescaped).  Before fix F47 the bytes were [map ord] of the text and every code
+   point above 255 raised ValueError. *)
 From FA.Base Require Import Names.
 From FA.Model Require Import GTree.
 Local Open Scope N_scope.
@@ -133,8 +134,19 @@ Section Repr.
   (* ---------- calc_ast_hash ---------- *)
   Variable md5 : text -> text.      (* bytes -> hex digest *)
 
+  (* ast.dump(a).encode("utf-8") (F47; before that fix: bytearray(map(ord, ...)), which raised ValueError on every
+     code point above 255).  [None] = UnicodeEncodeError: a lone surrogate in the text (CPython's repr escapes them,
+     so no dump contains one when [printable] is CPython's) or a number that is not a code point at all. *)
+  Definition utf8_cp (c : N) : text :=
+    if c <? 128 then [c]
+    else if c <? 2048 then [192 + c / 64; 128 + c mod 64]
+    else if c <? 65536 then [224 + c / 4096; 128 + (c / 64) mod 64; 128 + c mod 64]
+    else [240 + c / 262144; 128 + (c / 4096) mod 64; 128 + (c / 64) mod 64; 128 + c mod 64].
+  Definition utf8 (t : text) : text := flat_map utf8_cp t.
+  Definition encodable (c : N) : bool := (c <? 55296) || ((57343 <? c) && (c <? 1114112)).
+
   Definition hash_input (t : text) : option text :=
-    if forallb (fun c => c <? 256) t then Some t else None.      (* None = ValueError *)
+    if forallb encodable t then Some (utf8 t) else None.
 
   Definition ghash (v : gval) : option text := option_map md5 (hash_input (dump v)).
   Definition hash (v : rval) : option text := option_map md5 (hash_input (dump_raw v)).
